@@ -2,7 +2,8 @@
 //
 // Protocol line:   seq <grace_ms> <napps> <cfgs> <inflight> <trace>
 //
-//	cfgs      c0;c1;…  each  "="  (previous bytes again, unforced)  |  ["!"] srv+srv…  |  "-" (no server)
+//	cfgs      c0;c1;…  each  "="  (previous bytes again, unforced)  |  ["!"] (srv+srv… | "-") ["@m0" | "@m1"]
+//	          ("-": no server; "@m0"/"@m1": admin endpoint on that tcp / unix address, otherwise disabled)
 //	          srv = a,a,…  with a ∈ t0 t1 t2 (tcp) u0 u1 (unix);  "!" = rejected after every app started
 //	          (its admin.config.load module cannot be provisioned)
 //	inflight  "-" | load:addr:rel;…   a request parked in a handler of the config running before
@@ -96,12 +97,21 @@ func parseScenario(f []string) (sc scenario, ok bool) {
 		var c cfgSpec
 		if cs == "=" {
 			c.same = true
+			c.admin = -1
 			sc.cfgs = append(sc.cfgs, c)
 			continue
 		}
+		c.admin = -1
 		if strings.HasPrefix(cs, "!") {
 			c.fail = true
 			cs = cs[1:]
+		}
+		if body, adm, found := strings.Cut(cs, "@"); found {
+			c.admin = adminIndex(adm)
+			if c.admin < 0 {
+				return sc, false
+			}
+			cs = body
 		}
 		seen := map[int]bool{}
 		if cs != "-" {
@@ -168,8 +178,12 @@ func cfgString(c cfgSpec) string {
 	if c.fail {
 		s = "!"
 	}
+	adm := ""
+	if c.admin >= 0 {
+		adm = "@" + addrNames[c.admin]
+	}
 	if len(c.servers) == 0 {
-		return s + "-"
+		return s + "-" + adm
 	}
 	var parts []string
 	for _, srv := range c.servers {
@@ -179,7 +193,7 @@ func cfgString(c cfgSpec) string {
 		}
 		parts = append(parts, strings.Join(as, ","))
 	}
-	return s + strings.Join(parts, "+")
+	return s + strings.Join(parts, "+") + adm
 }
 
 func (sc scenario) String() string {
@@ -302,7 +316,8 @@ func (r *runner) oracle() {
 		}
 		takeover := k == n || cand >= 0 && !r.sc.cfgs[k].fail // old is stopped in this load
 		where := fmt.Sprintf("load %d, step %s", k, strings.SplitN(ev.String(), ":", 2)[0])
-		for a := 0; a < nAddr; a++ {
+		r.adminOracle(ev, where)
+		for _, a := range httpAddrs {
 			x := ev.ans[a]
 			name := addrNames[a]
 			served := isGenChar(x)
@@ -380,6 +395,64 @@ func (r *runner) oracle() {
 	}
 }
 
+// adminOracle: the admin endpoint is replaced at the beginning of every load (and stays replaced
+// even if the load is rejected; caddy.Stop leaves it alone). An admin address that the load keeps
+// never stops being served, by the previous or the new endpoint; after the drain only the new one
+// answers, and an address it left is closed.
+func (r *runner) adminOracle(ev *event, where string) {
+	n := len(r.sc.cfgs)
+	k := ev.load
+	// endpoint in effect before load k, and the one load k starts (if it replaces it)
+	prevAddr, prevGen := -1, -1
+	for j := 0; j < k && j < n; j++ {
+		if !r.sc.cfgs[j].same {
+			prevAddr, prevGen = r.sc.cfgs[j].admin, j
+		}
+	}
+	newAddr, newGen := prevAddr, prevGen
+	replaces := k < n && !r.sc.cfgs[k].same
+	if replaces {
+		newAddr, newGen = r.sc.cfgs[k].admin, k
+	}
+	for _, a := range []int{adm0, adm1} {
+		x := ev.ans[a]
+		if x == "" || x == "-" {
+			continue
+		}
+		name := addrNames[a]
+		served := isGenChar(x)
+		inPrev, inNew := prevAddr == a, newAddr == a
+		allowed := ""
+		if inPrev {
+			allowed += genChar(prevGen)
+		}
+		if inNew {
+			allowed += genChar(newGen)
+		}
+		switch {
+		case served && !strings.Contains(allowed, x):
+			r.fail("admin-address-answered-by-other-endpoint", fmt.Sprintf("%s: %s answered by the admin endpoint of load %s; only %q may", where, name, x, allowed))
+		case inPrev && inNew && x == ansReset && !isUnix(a) && ev.awin:
+			r.resetsSeen++ // queued on the replaced endpoint's SO_REUSEPORT socket while it was closed
+		case inPrev && inNew && !served:
+			r.fail("retained-admin-address-not-served", fmt.Sprintf("%s: connection to %s, the admin address before and after this load: %q", where, name, x))
+		case ev.kind == 'D' && inNew && x != genChar(newGen):
+			r.fail("admin-address-not-served-by-new-endpoint-after-drain", fmt.Sprintf("%s: %s: %q, expected the endpoint of load %d", where, name, x, newGen))
+		case ev.kind == 'D' && !inNew && x != ansRefused && x != ansNoEnt:
+			r.fail("dropped-admin-address-not-closed", fmt.Sprintf("%s: %s after drain: %q", where, name, x))
+		}
+		if inPrev && inNew {
+			cnt := ev.snap.pool[a]
+			if isUnix(a) {
+				cnt = ev.snap.ucnt[a-nTCP]
+			}
+			if cnt < 1 {
+				r.fail("retained-admin-address-usage-count-zero", fmt.Sprintf("%s: usage count of %s is %d", where, name, cnt))
+			}
+		}
+	}
+}
+
 func (r *runner) tags() []string {
 	n := len(r.sc.cfgs)
 	run := r.sc.running()
@@ -402,7 +475,17 @@ func (r *runner) tags() []string {
 		}
 		old := r.sc.cfgs[run[k]]
 		ident := true
-		for a := 0; a < nAddr; a++ {
+		switch {
+		case old.admin >= 0 && old.admin == c.admin:
+			set["admin-retained-"+map[bool]string{false: "tcp", true: "unix"}[isUnix(c.admin)]] = true
+		case old.admin >= 0 && c.admin >= 0:
+			set["admin-moved"] = true
+		case old.admin >= 0:
+			set["admin-disabled"] = true
+		case c.admin >= 0:
+			set["admin-enabled"] = true
+		}
+		for _, a := range httpAddrs {
 			kind := "tcp"
 			if isUnix(a) {
 				kind = "unix"
@@ -473,7 +556,7 @@ func (r *runner) tags() []string {
 
 func randSubset(rng *core.Rand, pTCP, pUnix int) []int {
 	var out []int
-	for a := 0; a < nAddr; a++ {
+	for _, a := range httpAddrs {
 		p := pTCP
 		if isUnix(a) {
 			p = pUnix
@@ -516,10 +599,22 @@ func genScenario(rng *core.Rand, maxCfgs int) scenario {
 	n := 2 + rng.Intn(maxCfgs-1)
 	first := randSubset(rng, 50, 50)
 	if len(first) == 0 {
-		first = []int{rng.Intn(nAddr)}
+		first = []int{httpAddrs[rng.Intn(len(httpAddrs))]}
 	}
-	sc.cfgs = append(sc.cfgs, cfgSpec{servers: splitServers(rng, first)})
+	// the admin endpoint: off in half of the scenarios, otherwise mostly kept from config to config
+	useAdmin := rng.Chance(1, 2)
+	pickAdmin := func(prev int) int {
+		switch {
+		case !useAdmin:
+			return -1
+		case prev != -2 && rng.Chance(13, 20):
+			return prev
+		}
+		return []int{adm0, adm0, adm1, adm1, -1}[rng.Intn(5)]
+	}
+	sc.cfgs = append(sc.cfgs, cfgSpec{servers: splitServers(rng, first), admin: pickAdmin(-2)})
 	last := sc.cfgs[0]
+	lastAdmin := last.admin
 	for k := 1; k < n; k++ {
 		var c cfgSpec
 		switch x := rng.Intn(100); {
@@ -535,11 +630,11 @@ func genScenario(rng *core.Rand, maxCfgs int) scenario {
 				set[a] = true
 			}
 			for t := 1 + rng.Intn(2); t > 0; t-- {
-				a := rng.Intn(nAddr)
+				a := httpAddrs[rng.Intn(len(httpAddrs))]
 				set[a] = !set[a]
 			}
 			var as []int
-			for a := 0; a < nAddr; a++ {
+			for _, a := range httpAddrs {
 				if set[a] {
 					as = append(as, a)
 				}
@@ -552,6 +647,11 @@ func genScenario(rng *core.Rand, maxCfgs int) scenario {
 		}
 		if !c.same && rng.Chance(1, 8) {
 			c.fail = true
+		}
+		c.admin = -1
+		if !c.same {
+			c.admin = pickAdmin(lastAdmin)
+			lastAdmin = c.admin // replaced even when the load is rejected
 		}
 		sc.cfgs = append(sc.cfgs, c)
 		if !c.same && !c.fail {
@@ -589,12 +689,13 @@ func genScenario(rng *core.Rand, maxCfgs int) scenario {
 func genStorm(rng *core.Rand, n int) string {
 	keep := randSubset(rng, 60, 60)
 	if len(keep) == 0 {
-		keep = []int{0, 3}
+		keep = []int{0, 4}
 	}
+	adm := []int{-1, adm0, adm1}[rng.Intn(3)]
 	var cs []string
 	for k := 0; k < n; k++ {
 		as := append([]int{}, keep...)
-		for a := 0; a < nAddr; a++ {
+		for _, a := range httpAddrs {
 			in := false
 			for _, x := range keep {
 				in = in || x == a
@@ -603,7 +704,7 @@ func genStorm(rng *core.Rand, n int) string {
 				as = append(as, a)
 			}
 		}
-		cs = append(cs, cfgString(cfgSpec{servers: splitServers(rng, as)}))
+		cs = append(cs, cfgString(cfgSpec{servers: splitServers(rng, as), admin: adm}))
 	}
 	return fmt.Sprintf("seq 0 0 %s - -", strings.Join(cs, ";"))
 }
@@ -616,6 +717,8 @@ var fixedScenarios = []string{
 	"seq 0 2 t0,u0;t0,u0;t0+u0,t1;t1 2:t0:s;3:u0:r",
 	"seq 0 1 t0,u0;!t0,u0,t1;t0,u1 1:t0:p;2:u0:t",
 	"seq 0 0 u0;!u0;u0 -",
+	"seq 0 1 t0@m0;t0@m0;!t0@m0;t0@m1;t0;t0@m1 2:t0:s",
+	"seq 0 0 u0@m1;u0@m1;!-@m1;=;u0@m0 -",
 	"seq 0 2 t0;!t0,t1,u1;t0,u1 1:t0:s",
 	"seq 300 2 t0,t1,u0,u1;t0,u1;=;t0,t1,u0,u1;- 1:t1:r;1:u1:d;5:t0:t",
 	"seq 0 0 u0;-;u0;u0;u1 -",
@@ -626,7 +729,8 @@ var malformed = []string{
 	"", "seq", "seq 0 0 t0 - - extra", "seq x 0 t0 - -", "seq 0 3 t0 - -", "seq 0 0 t9 - -", "seq 0 0 t0,t0 - -",
 	"seq 0 0 = - -", "seq 0 0 !t0 - -", "seq 0 0 t0;t1 1:t1:p -", "seq 0 0 t0;t1 1:t0:q -", "seq 0 0 t0;t1 3:t0:p -",
 	"seq 0 0 t0;t1 2:t1:p -", "seq 0 1 t0;!t0 1:t0:s -", "seq 0 0 t0;= 1:t0:p -", "storm 3", "seq -1 0 t0 - -", "seq 0 0 t0; - -",
-	"seq 0 0 t0+ - -", "seq 00 0 t0 - -", "seq 0 0 t0;t0 01:t0:p -",
+	"seq 0 0 t0+ - -", "seq 00 0 t0 - -", "seq 0 0 t0;t0 01:t0:p -", "seq 0 0 t0@t1 - -", "seq 0 0 m0 - -", "seq 0 0 t0@ - -",
+	"seq 0 0 t0;=@m0 - -", "seq 0 0 t0@m0;t0 1:m0:p -",
 }
 
 func (p *prop) Generate(rng *core.Rand, tier string, emit func(string)) {
